@@ -7,9 +7,9 @@
    Writer half and the round trip (second part): writing a conforming document tag by tag (Start / elements / End, default
    options or explicit size widths, unknown size by option) into a destination that accepts everything emits exactly that
    encoding, every call succeeds, and the strict reader yields the written tags.
-   PARTIAL: declared paths without global placeholders; tags written as Full are covered through C09_full_decomposes
-   (a Full is buffered as Start, children, End); raw tags are covered by the correspondence check only. *)
-From Ebml Require Import Base Tools Spec Writer Reader Pure Encode Proofs.Tactics Proofs.ReaderIO Proofs.Refine Proofs.PureProofs Proofs.RoundTrip Proofs.WriteEnc.
+   Masters given as Full items (third part): the same, with one write call per top-level item.
+   PARTIAL: declared paths without global placeholders; raw tags are covered by the correspondence check only. *)
+From Ebml Require Import Base Tools Spec Writer Reader Pure Encode Proofs.Tactics Proofs.ReaderIO Proofs.Refine Proofs.PureProofs Proofs.RollUp Proofs.RoundTrip Proofs.WriteEnc Proofs.WriteFull.
 
 (* every conforming document — any nesting depth, any payloads, any size widths, any subset of masters of unknown size — is
    read back as exactly its items (masters as Start/End pairs, offsets of the first byte of each element), then None *)
@@ -120,3 +120,20 @@ Example C01_ex_roundtrip :
     [Some (TStart 129); Some (TStart 16643); Some (TElem 16642 (VB [7])); Some (TEnd 16643); Some (TElem 16641 (VU 5)); Some (TEnd 129);
      Some (TStart 129); Some (TEnd 129); None].
 Proof. vm_compute. split; reflexivity. Qed.
+
+(* ------------------------------------------------------------------ masters given as Full *)
+(* [fconf sp d ids t]: t is written as ONE item (an element, or a Full master whose own options ask for an explicit width, the
+   default, or unknown size); everything inside a Full is written with default options, hence of known size ([all_known]) *)
+Theorem C01_full_roundtrip_partial : forall c d f, strict c -> c_buffered c = [] -> c_emit_eof c = true ->
+  Forall (fconf (c_sp c) d []) f -> Forall (rconf c) f ->
+  Forall (fun r => fst r = WOk) (fst (run_writer (c_sp c) (fops d f) [])) /\
+  map out_tag (p_run c (snd (run_writer (c_sp c) (fops d f) [])) [RAll]) = map Some (flat (map full_tag f)) ++ [None].
+Proof. exact full_write_read_roundtrip. Qed.
+
+Example C01_ex_full :
+  let t := RNode 129 None [ RNode 16643 (Some 1%nat) [ RLeaf 16642 (VB [7]) [7] 1%nat ]; RLeaf 16641 (VU 5) [5] 1%nat ] in
+  full_tag t = TFull 129 [TFull 16643 [TElem 16642 (VB [7])]; TElem 16641 (VU 5)] /\
+  snd (run_writer C01_sp (fops true [t]) []) = enc_forest [t] /\
+  map out_tag (p_run C01_cfg (snd (run_writer C01_sp (fops true [t]) [])) [RAll]) =
+    [Some (TStart 129); Some (TStart 16643); Some (TElem 16642 (VB [7])); Some (TEnd 16643); Some (TElem 16641 (VU 5)); Some (TEnd 129); None].
+Proof. vm_compute. repeat split; reflexivity. Qed.
